@@ -3,7 +3,7 @@
    OCaml's own; N, positive, nat, ascii, string, comparison stay Coq datatypes. *)
 Require Extraction.
 Require ExtrOcamlBasic.
-From RC Require Import Base.Res Base.Wire Model.Enums Gen.EnumTables Gen.Merge Model.Open Model.Negotiate Gen.CmpChain Model.Select Model.Nlri Model.NlriOrd Model.AsPath Gen.AttrRules Model.Attr Model.Update Gen.BuilderConsts Model.Builder Model.PaMap Gen.CapRules Model.OpenMsg Gen.FsmTable Model.Fsm.
+From RC Require Import Base.Res Base.Wire Model.Enums Gen.EnumTables Gen.Merge Model.Open Model.Negotiate Gen.CmpChain Model.Select Model.Nlri Model.NlriOrd Model.AsPath Gen.AttrRules Model.Attr Model.Update Gen.BuilderConsts Model.Builder Model.PaMap Gen.CapRules Model.OpenMsg Gen.FsmTable Model.Fsm Base.Text Gen.CommTables Model.Comm.
 Extraction Language OCaml.
 Set Extraction KeepSingleton.
 Extraction "../ocaml/model.ml"
@@ -40,4 +40,9 @@ Extraction "../ocaml/model.ml"
   OpenMsg.ob_add_cap OpenMsg.ob_four_octet OpenMsg.ob_add_mp OpenMsg.ob_add_addpath OpenMsg.ob_finish Wire.index
   Fsm.fsm_step Fsm.handle_msg Fsm.tick_msg Fsm.init Fsm.dummy_open Fsm.parse_frame Fsm.feed Fsm.read_message Fsm.upd_st Fsm.upd_conn Fsm.push_app Negotiate.get_addpath
   Negotiate.sc_modern
+  Comm.comm_from_raw Comm.comm_raw Comm.comm_display Comm.comm_from_str Comm.comm_asn Comm.comm_to_wellknown
+  Comm.std_display Comm.std_from_str Comm.std_is_wellknown Comm.std_is_reserved Comm.std_is_private Comm.std_to_wellknown
+  Comm.wk_to_u32 Comm.wk_from_str Comm.std_asn Comm.std_tag Comm.ext_display Comm.ext_from_str Comm.ext_types
+  Comm.ext_is_transitive Comm.ext_as2 Comm.ext_as4 Comm.ext_ip4 Comm.ext_an2 Comm.ext_an4 Comm.large_display
+  Comm.large_from_str Comm.v6_display Comm.v6_from_str Comm.v6_is_transitive Comm.octs
   EnumTables.all_enum_widths EnumTables.all_enum_names.
